@@ -9,7 +9,7 @@ import subprocess
 import tempfile
 
 from . import c16
-from .coord import PY312, Fleet, default_jobs, eprint, fresh_worker, hashseeds_for
+from .coord import PY312, PYFLAGS, Fleet, default_jobs, eprint, fresh_worker, hashseeds_for
 from .core import (OPTION_NAMES, HarnessError, Timer, all_option_sets, ddmin, derive_seed, digest, match_known, normalise,
                    write_evidence, write_replay)
 from .simfs import CWD
@@ -98,8 +98,9 @@ def real_runnable(desc: dict) -> bool:
     return True
 
 
-def run_real(repo: str, desc: dict, strace: dict | None = None) -> dict:
-    """Execute the base case as a real `python -m oneliner` process on real files."""
+def run_real(repo: str, desc: dict, strace: dict | None = None, opt: int = 0) -> dict:
+    """Execute the base case as a real `python -m oneliner` process on real files (`opt`: index of the
+    interpreter flags of the template the simulated run was made on, e.g. -O)."""
     root = tempfile.mkdtemp(prefix="verif-real-")
     try:
         fsd = desc["fs"]
@@ -113,7 +114,7 @@ def run_real(repo: str, desc: dict, strace: dict | None = None) -> dict:
         env = {"PATH": os.environ.get("PATH", "/usr/bin:/bin"), "PYTHONPATH": os.path.realpath(repo), "PYTHONHASHSEED": "0",
                "PYTHONDONTWRITEBYTECODE": "1", "LC_ALL": "C.UTF-8", "HOME": root,
                "PYTHONIOENCODING": desc["knobs"].get("stdout_encoding", "utf-8") + ":strict"}
-        cmd = [PY312] + (["-W", "error"] if desc["knobs"].get("warnings_error") else []) + ["-m", "oneliner"] + list(desc["argv"])
+        cmd = [PY312] + list(PYFLAGS.get(int(opt or 0), [])) + (["-W", "error"] if desc["knobs"].get("warnings_error") else []) + ["-m", "oneliner"] + list(desc["argv"])
         if desc["knobs"].get("stderr_closed"):
             cmd = ["sh", "-c", 'exec "$@" 2>&-', "sh"] + cmd
         if strace:
@@ -502,7 +503,7 @@ def run(repo: str, tier: str, seed: int, replay_dir=None, write_ev=True, jobs=No
                 # (when the case can be run for real): otherwise the model does not cover the I/O path
                 # the code uses, and that is a defect of the machinery, never a violation.
                 if not is_real and not (mdesc.get("plan") or []) and vclass[0] in ("P1", "P3") and real_runnable(mdesc):
-                    real = run_real(repo, mdesc)
+                    real = run_real(repo, mdesc, opt=int(doc["template"].get("opt", 0) or 0))
                     jr = wg.request({"cmd": "c16_judge", "desc": mdesc, "result": real_as_result(mdesc, real)})
                     if not any(_vc(v) == vclass for v in jr["violations"]):
                         gap_classes.add(vclass)
@@ -523,7 +524,7 @@ def run(repo: str, tier: str, seed: int, replay_dir=None, write_ev=True, jobs=No
                     break
 
     if model_gaps:
-        if not violations:
+        if not any(not match_known(PROP, sig_) for _doc, sig_ in violations):
             raise HarnessError("the simulation reports a fault-free violation that a real process does not show "
                                "(the model does not cover an I/O path the code uses): %s" % model_gaps[:3])
         for g_ in model_gaps[:5]:
